@@ -45,9 +45,9 @@ LARGE = [2048, 512000, 7, 13, 97, 251, 1009, 65521, 16, 64, 1024, 65536, (1 << 3
 def batches(tier: str) -> List[Batch]:
     if tier == "quick":
         return [Batch("comp", "py+rs-timer", 60000, 500), Batch("rs-machine", "rs-machine", 6000, 100),
-                Batch("py-machine", "py-machine", 640, 10)]
+                Batch("py-machine", "py-machine", 640, 10), Batch("rs-dev", "rs-machine", 1500, 100)]
     return [Batch("comp", "py+rs-timer", 400000, 500), Batch("rs-machine", "rs-machine", 150000, 300),
-            Batch("py-machine", "py-machine", 12000, 20)]
+            Batch("py-machine", "py-machine", 12000, 20), Batch("rs-dev", "rs-machine", 60000, 300)]
 
 
 def _gen_script(r: Rng, mti: int, sti: int) -> List[list]:
@@ -96,6 +96,44 @@ def _gen_script(r: Rng, mti: int, sti: int) -> List[list]:
     return script
 
 
+def _gen_dev(r: Rng) -> Dict[str, Any]:
+    """A Rust machine put together by DeviceModel::configure_runtime (the ROM's serial routines are answered by a
+    stub) with interrupts enabled: the timer handler itself far-calls one of those routines.  Judged like the irq
+    variant: timers stand still while the handler runs — inside the stubbed routine as well — and catch up after RETI."""
+    base = progen.CODE_BASE
+    a = progen.Asm(base)
+    main = a.pc
+    for _ in range(r.range(2, 6)):
+        a.op("NOP")
+    if r.chance(1, 2):
+        a.op("MV_I", r.range(1, 9), 0)
+        a.op("WAIT")
+        a.op("NOP")
+        a.op("NOP")
+    a.op("JP", main & 0xFF, (main >> 8) & 0xFF, tag="JP:main")
+    handler = a.pc
+    a.op("NOP", tag="HANDLER")
+    for _ in range(r.range(0, 4)):
+        a.op("NOP")
+    stub = r.choice([0xEB030, 0xEB31C, 0xEB33D])
+    a.op("CALLF", stub & 0xFF, (stub >> 8) & 0xFF, (stub >> 16) & 0xFF, tag="CALLF:stub")
+    for _ in range(r.range(0, 6)):
+        a.op("NOP")
+    a.op("AND_ISR", 0xFC, tag="H:clear")
+    a.op("RETI")
+    end = a.pc
+    prog = {"image": [[base, list(a.buf)]],
+            "rom_tail": [handler & 0xFF, (handler >> 8) & 0xFF, (handler >> 16) & 0xFF, main & 0xFF, (main >> 8) & 0xFF, (main >> 16) & 0xFF],
+            "entry": base, "main": main, "handler": handler, "code": [base, 0xFFFFF],
+            "ins": {str(addr): [ln, tag] for addr, ln, tag in a.ins}, "style": {"reenable": False, "clear": "timers"}}
+    return {"kind": "machine", "exec": "rs-machine", "device": r.choice(["pce500", "jp"]), "prog": prog, "variant": "irq",
+            "regs": {"PC": base, "S": progen.S_INIT, "U": progen.U_INIT, "BA": 0, "I": 0, "X": 0, "Y": 0, "F": 0},
+            "imem": [[progen.IMR, r.choice([0x83, 0x81, 0x82])], [progen.ISR, 0]],
+            "timer": {"enabled": True, "mti": r.range(3, 30), "sti": r.choice([0, r.range(3, 40)])},
+            "kb": {"press": 1, "release": 1, "repeat_delay": 24, "repeat_interval": 6, "active_high": True},
+            "boundaries": r.choice([60, 150]), "ops": [], "watch": [[progen.SCRATCH, 0x10]], "feat": {}, "faulty": False, "dev": True}
+
+
 def generate(batch: str, r: Rng, idx: int, tier: str) -> Dict[str, Any]:
     if batch == "comp":
         if idx < 2 * len(SMALL):
@@ -105,6 +143,8 @@ def generate(batch: str, r: Rng, idx: int, tier: str) -> Dict[str, Any]:
             sti = r.choice(LARGE + [r.range(1, 40), 0])
         return {"kind": "timer", "exec": "py+rs-timer", "mti": mti, "sti": sti, "enabled": r.chance(7, 8),
                 "script": _gen_script(r.child("script"), mti, sti)}
+    if batch == "rs-dev":
+        return _gen_dev(r)
     executor = batch
     # variants: plain (master enable clear, no keys) / keys (key events while the timers run: the scan and the KEYI
     # assertion share the timer tick) / irq (interrupts enabled: timers stand still while a handler runs and catch
